@@ -13,7 +13,6 @@ use crate::scenario::{apply, fnv64, Obs, Op, Scenario, World};
 
 pub const KINDS: [&str; 12] = [
     "entropy_reseed",
-    "history_burst",
     "worker_restart",
     "process_restart",
     "err_predecessor",
@@ -24,6 +23,7 @@ pub const KINDS: [&str; 12] = [
     "clock_backwards",
     "pid_change",
     "env_noise",
+    "address_slide",
 ];
 
 /// the pinned tree panics on this one (C17's business); here it is history for other expansions
@@ -44,6 +44,7 @@ pub struct Cfg {
     pub clock_jump: bool,
     pub pid_change: bool,
     pub env_noise: bool,
+    pub address_slide: bool,
     pub history_burst: bool,
     pub corpus_pct: u64,
 }
@@ -103,6 +104,7 @@ fn swarm(rng: &mut Rng, thorough: bool) -> Cfg {
         clock_jump: on(rng),
         pid_change: on(rng),
         env_noise: on(rng),
+        address_slide: on(rng),
         history_burst: on(rng),
         corpus_pct: *rng.pick(&[0, 30, 60, 60, 90, 100]),
     }
@@ -133,8 +135,8 @@ pub fn plan(seed: u64, corpus: &[Input], thorough: bool) -> Plan {
             names.push(c.name.clone());
             roles.push("target/corpus");
         } else {
-            let name = format!("G{}", t);
-            let opts = GenOpts { error_pct: 15, into_heavy: rng.chance(3, 10) };
+            let name = if rng.chance(1, 3) { gen::shared_type_name(&mut rng) } else { format!("G{}", t) };
+            let opts = GenOpts { error_pct: 25, into_heavy: rng.chance(3, 10) };
             inputs.push(gen::generate(&mut rng, &name, &opts));
             names.push(name);
             roles.push("target/generated");
@@ -210,12 +212,18 @@ pub fn plan(seed: u64, corpus: &[Input], thorough: bool) -> Plan {
             bump("process_restart");
         }
         if slots[si].world.is_none() {
-            let env = if cfg.env_noise {
+            let mut env = if cfg.env_noise {
                 bump("env_noise");
                 env_noise(&mut rng)
             } else {
                 vec![]
             };
+            if cfg.address_slide {
+                // simulated ASLR: page-aligned shift of the mmap area (0..1 GiB) and of the main heap
+                bump("address_slide");
+                env.push(("VERIF_SLIDE_MMAP".to_string(), (rng.below(262_144) * 4096).to_string()));
+                env.push(("VERIF_SLIDE_BRK".to_string(), (rng.below(256) * 4096).to_string()));
+            }
             let wi = worlds.len();
             worlds.push(World { name: format!("p{}g{}", si, slots[si].gen), env, ops: vec![] });
             slots[si].world = Some(wi);
